@@ -7,3 +7,4 @@ pub mod rep;
 pub mod report;
 pub mod seq;
 pub mod source;
+pub mod tamper;
